@@ -315,3 +315,85 @@ def add_lumped_loads(rng, spec, npulses, nload=None, on=None):
 
 def n_pulses_estimate(spec):
     return sum(w['nseg'] for w in spec['wires'])
+
+def gen_topology(rng, ground=None, perturb=True, curves=True):
+    """Random wire graphs for the topology stage: nodes, wires between nodes in
+    random orientation and order, 1..4 segments, junctions of up to 5 ends,
+    closed loops, several components, ends perturbed by less / more than the
+    matching tolerance, nodes on the ground plane."""
+    f = rng.choice([7.0, 14.2, 28.5, 50.0])
+    lam = C_MHZ / f
+    nn = rng.randint(2, 6)
+    nodes = []
+    for k in range(nn):
+        p = [rng.uniform(-1, 1) * lam * 0.2 for _ in range(3)]
+        if ground:
+            p[2] = abs(p[2]) + lam * 0.05
+            if rng.random() < 0.35:
+                p[2] = 0.0
+        nodes.append(p)
+    wires = []
+    pairs = [(a, b) for a in range(nn) for b in range(a + 1, nn)]
+    rng.shuffle(pairs)
+    nw = rng.randint(1, min(len(pairs), 6))
+    for (a, b) in pairs[:nw]:
+        if ground and nodes[a][2] == 0 and nodes[b][2] == 0:
+            continue
+        if rng.random() < 0.5:
+            a, b = b, a
+        n = rng.randint(1, 4)
+        L = math.dist(nodes[a], nodes[b])
+        wires.append(wire(n, nodes[a], nodes[b], L / n / rng.uniform(20, 100)))
+    if not wires:
+        wires.append(wire(3, [0, 0, lam * 0.1], [lam * 0.1, 0, lam * 0.2], lam * 1e-4))
+    if curves and rng.random() < 0.2:
+        # a closed loop made of two objects: half-circle arc closed by a straight wire
+        R = lam * rng.uniform(0.03, 0.08)
+        za = 0.0 if ground else 0.0
+        a = dict(type='arc', nseg=rng.randint(3, 6), radius=R, ang1=0.0, ang2=180.0, r=lam * 1e-4, tag=None)
+        pa, pb = [R, 0.0, 0.0], [-R, 0.0, 0.0]
+        if rng.random() < 0.5: pa, pb = pb, pa
+        w2 = wire(rng.randint(1, 4), pa, pb, lam * 1e-4)
+        if not ground:
+            wires = [a, w2] if rng.random() < 0.5 else [w2, a]
+    elif curves and rng.random() < 0.3:
+        if rng.random() < 0.5:
+            wires.append(dict(type='arc', nseg=rng.randint(3, 8), radius=lam * rng.uniform(0.02, 0.1),
+                              ang1=rng.choice([0.0, 30.0]), ang2=rng.choice([180.0, 270.0, 360.0]),
+                              r=lam * 1e-4, tag=None))
+        else:
+            wires.append(dict(type='helix', nseg=rng.randint(6, 12), length=lam * 0.1 * rng.choice([1, -1]),
+                              turnlen=lam * 0.05 * rng.choice([1, -1]), r=lam * 1e-4,
+                              rx1=lam * 0.02, ry1=lam * 0.02, rx2=None, ry2=None, tag=None))
+    if rng.random() < 0.25:
+        w = rng.choice([w for w in wires if w['type'] == 'wire'])
+        if w['nseg'] >= 2:
+            w['taper'] = [rng.choice([1, 2, 3]), None, None]
+    rng.shuffle(wires)
+    # tolerance as the code will see it (equal segmentation only; good enough to aim)
+    seglens = [math.dist(w['p1'], w['p2']) / w['nseg'] for w in wires if w['type'] == 'wire']
+    tol = 1e-3 * min(seglens)
+    if perturb:
+        for w in wires:
+            if w['type'] != 'wire':
+                continue
+            for key in ('p1', 'p2'):
+                if rng.random() < 0.3 and not (ground and w[key][2] == 0):
+                    d = _unit(rng)
+                    mag = tol * rng.choice([0.3, 0.3, 0.45, 3.0])
+                    w[key] = [w[key][i] + d[i] * mag for i in range(3)]
+    mode = rng.choice(['none', 'explicit', 'gaps', 'perm', 'mixed'])
+    k = len(wires)
+    if mode == 'explicit':
+        for i, w in enumerate(wires): w['tag'] = i + 1
+    elif mode == 'gaps':
+        t = 0
+        for w in wires:
+            t += rng.randint(1, 4); w['tag'] = t
+    elif mode == 'perm':
+        for w, t in zip(wires, rng.sample(range(1, 3 * k + 1), k)): w['tag'] = t
+    elif mode == 'mixed':
+        for w, t in zip(wires, rng.sample(range(1, 2 * k + 2), k)):
+            w['tag'] = t if rng.random() < 0.5 else None
+    media = None if not ground else []
+    return dict(f=f, wires=wires, media=media, family='graph', tagmode=mode, sources=[], loads=[])
